@@ -47,7 +47,20 @@ def _run_case(run, drv, rng, case_seed):
     rng = random.Random(case_seed)
     with sandbox("c06") as box:
         try:
-            m = metas.make_meta(rng, box)
+            if case_seed < 0:
+                # fixed shapes every run includes: payloads without a single byte through the
+                # hybrid creators (an empty pieces string is still a pieces string)
+                from harness.common import Blob
+                from harness import gen
+                ver, kind, cli, single = {-1: (3, "a3", False, False), -2: (3, None, True, False),
+                                          -3: (3, "a3", False, True), -4: (3, "hy", False, False),
+                                          -5: (1, "v1", False, False), -6: (2, "a2", False, False)}[case_seed]
+                empties = [("only", Blob.rand(1, 0))] if single else \
+                    [("e1", Blob.rand(1, 0)), ("d/e2", Blob.rand(1, 0))]
+                m = metas.make_meta(rng, box, version=ver, via_cli=cli, single=single,
+                                    files=gen.FileList(empties), kind=kind)
+            else:
+                m = metas.make_meta(rng, box)
         except Exception as exc:
             run.fail("impl-vs-spec", {"case_seed": case_seed}, {"raised in create": repr(exc)})
             return
@@ -94,7 +107,8 @@ def run(tier, seed, replay=None):
     if replay:
         seeds = [replay["case"]["case_seed"]]
     else:
-        seeds = [run.rng.randrange(10 ** 9) for _ in range(120 if tier == "quick" else 1200)]
+        seeds = [-1, -2, -3, -4, -5, -6] + \
+            [run.rng.randrange(10 ** 9) for _ in range(120 if tier == "quick" else 1200)]
     for s in seeds:
         run_case(run, drv, run.rng, s)
     from harness.props import creation as cr
